@@ -1158,12 +1158,13 @@ def gen_ttl_text(rng):
     if m == 1:
         v = rng.below(2**32)
         return ttl_spelling(rng, v), v
-    atoms = ["1", "0", "9", "12", "w", "d", "h", "m", "s", "W", "D", "H", "M", "S", "x", "-", "+", " ", "", "7105", "4294967295", "_"]
+    atoms = ["1", "0", "9", "12", "w", "d", "h", "m", "s", "W", "D", "H", "M", "S", "x", "-", "+", " ", "", "7105", "4294967295", "_",
+             "\xb2", "\xb9", "\xbc", "\n", "\t", "\r", "\x00", "\x7f", "\x0b", "\x1c", "\x85", "\xa0"]
     return "".join(rng.choice(atoms) for _ in range(rng.range(0, 6))), None
 
 
 def gen_grange_text(rng):
-    atoms = ["0", "1", "5", "10", "255", "-", "-", "/", "/", "a", "", " ", "00"]
+    atoms = ["0", "1", "5", "10", "255", "-", "-", "/", "/", "a", "", " ", "00", "\xb2", "\xb9", "\n", "\t", "\x00", "\x7f", "\x85", "\xa0"]
     if rng.chance(1, 2):
         a = rng.below(20)
         b = a + rng.below(20) if rng.chance(4, 5) else rng.below(a + 1)
@@ -1175,7 +1176,7 @@ def gen_grange_text(rng):
 
 
 def gen_int_text(rng):
-    atoms = ["0", "1", "9", "12", "007", "-", "+", "_", " ", "\t", "a", "", "65535", "65536", "4294967296"]
+    atoms = ["0", "1", "9", "12", "007", "-", "+", "_", " ", "\t", "a", "", "65535", "65536", "4294967296", "\xb2", "\n", "\x0b", "\x1c", "\x85", "\xa0", "\x00"]
     return "".join(rng.choice(atoms) for _ in range(rng.range(0, 5)))
 
 
@@ -1839,7 +1840,7 @@ def generate(ctx: Ctx, scale: int, rng, thorough=False):
         ctx.case(("tok", text, tuple(ops)), sample=c)
         eval_case(ctx, c)
     for _ in range(n(200)):
-        text = "".join(rng.choice(["a", "\\", "\\\\", '\\"', "\\0", "\\04", "\\046", "\\255", "\\256", "\\999", "\\1a2", "\\12", "\\a", "1", "\xe9", ".", '"', " "])
+        text = "".join(rng.choice(["a", "\\", "\\\\", '\\"', "\\0", "\\04", "\\046", "\\255", "\\256", "\\999", "\\1a2", "\\12", "\\a", "1", "\xe9", ".", '"', " ", "\\12\xb2", "\\1\xb23", "\\\xb9", "\xb2", "\\25\xb3"])
                        for _ in range(rng.range(0, 6)))
         c = {"kind": "unesc", "text": l1(text).hex()}
         ctx.case(("unesc", text), sample=c)
